@@ -5249,12 +5249,18 @@ func readWithRuns(b *Bitmap, data []byte, pos int, keyN uint32) error {
 		switch c.typ() {
 		case containerRun:
 			runCount := binary.LittleEndian.Uint16(data[pos : pos+runCountHeaderSize])
-			c.setRuns((*[0xFFFFFFF]interval16)(unsafe.Pointer(&data[pos+runCountHeaderSize]))[:runCount:runCount])
-			runs := c.runs()
-
-			for o := range runs { // must convert from start:length to start:end :(
-				runs[o].last = runs[o].start + runs[o].last
+			// The official format stores runs as start:length, we want
+			// start:last. The conversion must not be done in place: data
+			// belongs to the caller (and may be read-only mmapped storage),
+			// so the converted runs go to storage of our own.
+			oldRuns := (*[0xFFFFFFF]interval16)(unsafe.Pointer(&data[pos+runCountHeaderSize]))[:runCount:runCount]
+			runs := make([]interval16, runCount)
+			for o := range oldRuns {
+				runs[o].start = oldRuns[o].start
+				runs[o].last = oldRuns[o].start + oldRuns[o].last
 			}
+			c.setRuns(runs)
+			c.setMapped(false)
 			pos += int((runCount * interval16Size) + runCountHeaderSize)
 		case containerArray:
 			c.setArray((*[0xFFFFFFF]uint16)(unsafe.Pointer(&data[pos]))[:c.N():c.N()])
